@@ -355,14 +355,23 @@ func EnsureRawValue(in interface{}) reflect.Value {
 // pointers are packed or unpacked to the level of typ, and the elements of
 // generic lists and maps are converted one by one.
 func convertValue(v reflect.Value, typ reflect.Type) (reflect.Value, error) {
-	return convertValueDepth(v, typ, 0)
+	return convertValueDepth(v, typ, 0, make(map[convertKey]reflect.Value))
+}
+
+// convertKey identifies a generic list or map together with the type it is converted to:
+// a list referenced n times is converted once, otherwise lists that share sub-lists
+// (l1 = [l0, l0], l2 = [l1, l1], ...) cost 2^depth conversions
+type convertKey struct {
+	addr   uintptr
+	length int
+	typ    reflect.Type
 }
 
 // _maxConvertDepth bounds the nesting of a conversion: a decoded list or map may contain
 // itself, and a copy of it into a typed destination would never end
 const _maxConvertDepth = 512
 
-func convertValueDepth(v reflect.Value, typ reflect.Type, depth int) (reflect.Value, error) {
+func convertValueDepth(v reflect.Value, typ reflect.Type, depth int, memo map[convertKey]reflect.Value) (reflect.Value, error) {
 	if depth > _maxConvertDepth {
 		return _zeroValue, newCodecError("convertValue", "value nested deeper than %d (or containing itself) can't be converted to %v", _maxConvertDepth, typ)
 	}
@@ -395,7 +404,7 @@ func convertValueDepth(v reflect.Value, typ reflect.Type, depth int) (reflect.Va
 		if v.Kind() == reflect.Ptr && v.IsNil() {
 			return reflect.Zero(typ), nil
 		}
-		elem, err := convertValueDepth(v, typ.Elem(), depth+1)
+		elem, err := convertValueDepth(v, typ.Elem(), depth+1, memo)
 		if err != nil {
 			return _zeroValue, err
 		}
@@ -424,9 +433,14 @@ func convertValueDepth(v reflect.Value, typ reflect.Type, depth int) (reflect.Va
 		// a named string or bool type
 		return v.Convert(typ), nil
 	case kind == reflect.Slice && v.Kind() == reflect.Slice && typ.Elem().Kind() != reflect.Uint8:
+		key := convertKey{v.Pointer(), v.Len(), typ}
+		if cv, ok := memo[key]; ok && v.Len() > 0 {
+			return cv, nil
+		}
 		cv := reflect.MakeSlice(typ, v.Len(), v.Len())
+		defer func() { memo[key] = cv }()
 		for i := 0; i < v.Len(); i++ {
-			item, err := convertValueDepth(v.Index(i), typ.Elem(), depth+1)
+			item, err := convertValueDepth(v.Index(i), typ.Elem(), depth+1, memo)
 			if err != nil {
 				return _zeroValue, err
 			}
@@ -434,13 +448,18 @@ func convertValueDepth(v reflect.Value, typ reflect.Type, depth int) (reflect.Va
 		}
 		return cv, nil
 	case kind == reflect.Map && v.Kind() == reflect.Map:
+		key := convertKey{v.Pointer(), 0, typ}
+		if cv, ok := memo[key]; ok && v.Len() > 0 {
+			return cv, nil
+		}
 		cv := reflect.MakeMapWithSize(typ, v.Len())
+		defer func() { memo[key] = cv }()
 		for _, k := range v.MapKeys() {
-			ck, err := convertValueDepth(k, typ.Key(), depth+1)
+			ck, err := convertValueDepth(k, typ.Key(), depth+1, memo)
 			if err != nil {
 				return _zeroValue, err
 			}
-			ce, err := convertValueDepth(v.MapIndex(k), typ.Elem(), depth+1)
+			ce, err := convertValueDepth(v.MapIndex(k), typ.Elem(), depth+1, memo)
 			if err != nil {
 				return _zeroValue, err
 			}
